@@ -987,7 +987,7 @@ fn c08_judge(case: &Case, run: &Run, an: &Analysis, stats: &mut Stats) -> CheckR
 /// Dump equality on programs with one state-dependent violation (guarded hidden dependency / overlap / cycle) and
 /// injected panics: whatever aborted, every task whose last execution *completed* holds exactly that execution's
 /// dependencies (rejected edges, aborted neighbours and later re-insertions included).
-fn c08_diag_check(case: &Case, stats: &mut Stats) -> CheckResult {
+pub fn c08_diag_check(case: &Case, stats: &mut Stats) -> CheckResult {
   let run = engine::run_case(case, &dump_opts());
   let aborted = run.sessions.iter().any(|s| s.builds.iter().any(|b| matches!(b.result, engine::BuildResult::Panic(_))));
   if aborted { stats.class("dump_compared_in_case_with_diagnosed_or_injected_abort"); stats.nontrivial(fingerprint(case)); sample(case, stats); }
@@ -1069,8 +1069,11 @@ pub fn run(prop: &str, tier: Tier, seed: u64) -> i32 {
   report.absorb("case", stats, found);
   if let Some(extra) = spec.extra { extra(spec, tier, seed, &known, &mut report); }
   // Coverage-guided campaign (thorough tier) for the properties whose cases are plain program x history values.
-  if tier == Tier::Thorough && report.violations.is_empty() && ["C01", "C02", "C03", "C04", "C08", "C09", "C20"].contains(&prop) && std::env::var("PV_NO_FUZZ").is_err() {
-    crate::fuzz::campaign(prop, 300000, 16, &mut report);
+  if tier == Tier::Thorough && report.violations.is_empty() && std::env::var("PV_NO_FUZZ").is_err() {
+    // C16 is excluded (each evaluation replays the case five times, partly in fresh processes).
+    if ["C01", "C02", "C03", "C04", "C05", "C06", "C07", "C08", "C09", "C17", "C18", "C19", "C20"].contains(&prop) { crate::fuzz::campaign(prop, 300000, 16, &mut report); }
+    let subs: &[&str] = match prop { "C19" => &["C19:diag"], "C20" => &["C20:guarded", "C20:after-aborts"], "C08" => &["C08:diag"], "C06" => &["C06:after-aborts"], _ => &[] };
+    for k in subs { if report.violations.is_empty() { crate::fuzz::campaign(k, 150000, 16, &mut report); } }
   }
   report.assumptions = spec.assumptions.iter().map(|s| s.to_string()).collect();
   report.finish()
